@@ -38,6 +38,7 @@ def main():
             R.replay_key = spec.get("finding", {}).get("key")
         explanation = mod.run(repo, R)
         R.no_evidence = a.no_evidence
+        R.scratch_repo = a.repo
         code = R.finish(explanation, exhaustive=getattr(R, "exhaustive", None))
         if a.replay:
             key = getattr(R, "replay_key", None)
